@@ -2426,6 +2426,34 @@ func isInterfaceSrc(t *itype) bool {
 	return t.cat == interfaceT || (t.cat == linkedT && isInterfaceSrc(t.val))
 }
 
+// hasMethodSrc returns true if the method set of t contains interpreted methods,
+// declared on t or promoted from an embedded field or reached through a pointer.
+func hasMethodSrc(t *itype) bool {
+	seen := map[*itype]bool{}
+	var has func(t *itype) bool
+	has = func(t *itype) bool {
+		if t == nil || seen[t] {
+			return false
+		}
+		seen[t] = true
+		if len(t.method) > 0 {
+			return true
+		}
+		switch t.cat {
+		case linkedT, ptrT:
+			return has(t.val)
+		case structT:
+			for _, f := range t.field {
+				if f.embed && has(f.typ) {
+					return true
+				}
+			}
+		}
+		return false
+	}
+	return has(t)
+}
+
 func isInterfaceBin(t *itype) bool {
 	return t.cat == valueT && t.rtype.Kind() == reflect.Interface || t.cat == errorT
 }
